@@ -108,6 +108,22 @@ CLAIMED["C18"] = dict(
    technique="Coq proof (shape arithmetic, axiom-free) + AST translator + extracted-model exact correspondence",
    design="DESIGN.md section 4, C18")
 
+CLAIMED["C14"] = dict(
+   text="Coq theorems over a per-feature state-machine model of ActNorm and BatchNorm whose every formula and branch "
+        "condition is regenerated from normalization.py on each run: over every history of {train, eval, forward, "
+        "inverse, save+load into a fresh instance} ActNorm's flag is set only by a training-mode forward pass, its "
+        "parameters are those of the FIRST such pass and never change afterwards (axiom-free, any carrier, induction "
+        "over the history), and that batch comes out with zero mean and unit variance (real arithmetic); BatchNorm's "
+        "running statistics are written by training-mode forward passes only and by the momentum rule, training uses "
+        "batch statistics and evaluation the running ones, the inverse is refused in training mode and undoes the "
+        "forward pass in evaluation mode. The extracted model is run in lock-step with the real layers (2-D and 4-D "
+        "batches, reload into fresh instances): flags, parameters, running statistics, outputs, outcomes.",
+   note="Trusted: Coq kernel; Reals axioms for the three numerical statements (life-cycle theorems are closed under "
+        "the global context); translator (Gen/Norm.v); extraction + float dictionary; harness. The 4-D log-det "
+        "aggregation h*w*sum(log_scale) is matched syntactically by the translator and checked numerically.",
+   technique="Coq proof (state machine + real algebra) + AST translator + lock-step correspondence",
+   design="DESIGN.md section 4, C14")
+
 def main():
     checks = []
     for pid in ALL:
